@@ -153,7 +153,8 @@ def call (name : String) (args : List Val) : Out :=
   | "decode_utf8", [.arr _ xs] => (match xs.mapM (fun v => match v with | .byte b => some b | _ => none) with
       | some bs => (match String.fromUTF8? (ByteArray.mk bs.toArray) with
           | some s => .value (.str s)
-          | none => .okAny)
+          -- "Return Utf8 error. Use `is_error` to check if the returned value is an error object."
+          | none => .value (.err "utf8"))
       | none => .error)
   | "decode_utf8", _ => .error
   | "sort", [.arr i xs] =>
